@@ -48,6 +48,8 @@ type LogEntry struct {
 	Removed   bool
 	Err       error
 	Injected  string // non-empty: the request never reached the store (injected fault kind)
+	Read      bool   // a served get/list (After = object returned by get; Count = items listed)
+	Count     int
 }
 
 type histEntry struct {
@@ -1156,7 +1158,7 @@ func (s *Store) LogInjected(c Caller, verb string, gvk schema.GroupVersionKind, 
 
 // IsWrite reports whether the entry is a (non-dry-run) mutating request that reached the store.
 func (e *LogEntry) IsWrite() bool {
-	return e.Injected == "" && !e.DryRun
+	return e.Injected == "" && !e.DryRun && !e.Read
 }
 
 // StateAt returns (without copying) the object as it was when the log had seq entries.
@@ -1199,4 +1201,15 @@ func (s *Store) VersionsBetween(k ObjKey, from, to int) []map[string]any {
 		out = append(out, cur)
 	}
 	return out
+}
+
+// LogRead records a read that was served (get: After is the object returned,
+// nil for NotFound; list: Count is the number of items).
+func (s *Store) LogRead(c Caller, verb string, gvk schema.GroupVersionKind, ns, name string, obj map[string]any, count int, err error) {
+	e := &LogEntry{Seq: len(s.Log), Step: s.StepFn(), Actor: c.Actor, TaskID: c.TaskID, TaskLabel: c.TaskLabel, Verb: verb,
+		Key: ObjKey{Group: gvk.Group, Kind: gvk.Kind, NS: ns, Name: name}, After: obj, Count: count, Err: err, Read: true}
+	s.Log = append(s.Log, e)
+	for _, f := range s.OnLog {
+		f(e)
+	}
 }
